@@ -734,6 +734,10 @@ package gohlslib
 //@   ensures (result == nil && !h.NonKeyFrame) ==> h.ColorConfig != nil
 //@ end
 
+//@ func ext:url.ParseQuery
+//@   ensures result0 != nil ==> fresh(result0)
+//@ end
+
 //@ func ext:h264.DTSExtractor.Extract
 //@   ensures result1 == nil ==> result0 <= pts
 //@ end
@@ -1030,4 +1034,17 @@ package gohlslib
 //@   props C01
 //@   lemma
 //@   ensures result == v
+//@ end
+
+// ---------------------------------------------------------------------------------------
+// C06: _HLS_* delivery directives never reach the URIs of a playlist
+
+//@ func filterOutHLSParams
+//@   props C06
+//@   ensures rawQuery == "" ==> result == ""
+//@   ensures result == "" || calls("url.Values.Encode") == 1
+//@   loop 1 invariant 0 <= iterpos() && iterpos() <= iterlen()
+//@   loop 1 invariant forall(j, (0 <= j && j < iterpos()) ==> !(hasprefix(iterkey(j), "_HLS_") && has(q, iterkey(j))))
+//@   loop 1 invariant forall(k, has(q, k) ==> exists(j, 0 <= j && j < iterlen() && iterkey(j) == k))
+//@   atcall url.Values.Encode forall(k, has(arg0, k) ==> !hasprefix(k, "_HLS_"))
 //@ end
